@@ -34,7 +34,11 @@ class FakeWriter:
         if self.drain_mode > 1:
             c = w.sched.choose("drain", self.drain_mode, (self.sess.name,))
             if c == 1:
-                await asyncio.sleep(0)
+                # the peer reads slowly: the writing task is parked until the harness' "peer caught up"
+                # event (VLoop.parked_drains) is taken
+                fut = w.loop.create_future()
+                w.loop.parked_drains = getattr(w.loop, "parked_drains", []) + [(f"Dr{self.sess.name}", fut)]
+                await fut
             elif c == 2:
                 await asyncio.sleep(3600)  # peer never reads: push()'s 2 s timeout fires
         return None
